@@ -118,12 +118,12 @@ func main() {
 	}
 	// 2. random trees, plain stream
 	g := r.Rng
-	n := r.N(26, 420)
+	n := r.N(24, 360)
 	for i := 0; i < n; i++ {
 		runScenario("random", false, g.U64(), 8+g.Intn(21))
 	}
 	// 3. random trees with the allocator wired + defrag between deliveries
-	n = r.N(5, 60)
+	n = r.N(4, 50)
 	for i := 0; i < n; i++ {
 		runScenario("random", true, g.U64(), 8+g.Intn(16))
 	}
